@@ -411,7 +411,7 @@ impl<R: Read + Seek> Seek for CompressionLayerReader<'_, R> {
         // Seeking may instantiate a decompressor, and therefore position the
         // inner layer at the end of the asked position's compressed block
         match &self.sizes_info {
-            Some(_sizes_info) => {
+            Some(sizes_info) => {
                 match pos {
                     SeekFrom::Start(pos) => {
                         // Find the right block
@@ -422,6 +422,13 @@ impl<R: Read + Seek> Seek for CompressionLayerReader<'_, R> {
                         let old_state =
                             std::mem::replace(&mut self.state, CompressionLayerReaderState::Empty);
                         let mut inner = old_state.into_inner();
+                        if pos == sizes_info.max_uncompressed_pos() {
+                            // Seeking to the very end of the stream: there is no
+                            // block to open and nothing more to read
+                            self.state = CompressionLayerReaderState::Ready(inner);
+                            self.underlayer_pos = pos;
+                            return Ok(pos);
+                        }
                         self.sync_inner_with_uncompressed_pos(&mut inner, rounded_pos)?;
 
                         // New decompressor at the start of the block
